@@ -189,27 +189,35 @@ def kres (d : D) (m : Mode) (s : Sig) : D × WEv :=
 def push (d : D) (s : Sig) : D :=
   if s ∈ transparent then d else { d with queue := d.queue ++ [s] }
 
-/-- the loop of `Tracer::single_step` after the first `step(None)` -/
+/-- a resume request, the `waitpid` after it, and — when that reports a signal-delivery-stop — the queueing of the
+signal by `apply_new_status` (one atomic step of the tracer: nothing happens between the three) -/
+def kp (d : D) (m : Mode) (s : Sig) : D × WEv :=
+  let r := d.kres m s
+  match r.2 with
+  | .sigStop a => (r.1.push a, r.2)
+  | _ => r
+
+/-- the loop of `Tracer::single_step` after the first `step(None)`; a reported `sigStop` has already been queued -/
 def ssLoop : Nat → Nat → D → WEv → D × SRes
   | 0, _, d, _ => (d, .outOfFuel)
   | f + 1, ini, d, .trap =>
     if d.k.pos = ini then
-      let r := d.kres .step 0
+      let r := d.kp .step 0
       ssLoop f ini r.1 r.2
     else (d, .none)
   | _ + 1, _, d, .trapBp => (d, .none)
   | f + 1, ini, d, .trap5 =>
+    -- `PTRACE_SYSCALL`, `wait_one`, `debug_assert!(status == Stopped(SIGTRAP))`: no `apply_new_status` here
     let r := d.kres .sysc 0
     match r.2 with
     | .trap | .trap5 | .trapBp =>
-      let r2 := r.1.kres .step 0
+      let r2 := r.1.kp .step 0
       ssLoop f ini r2.1 r2.2
     | .unmodelled => (r.1, .unmodelled)
-    | _ => (r.1, .panic)            -- debug_assert!(syscall_status == Stopped(SIGTRAP))
+    | _ => (r.1, .panic)
   | f + 1, ini, d, .sigStop s =>
-    let d := d.push s
     if s ∈ quiet then
-      let r := d.kres .step s
+      let r := d.kp .step s
       ssLoop f ini r.1 r.2
     else (d, .sig s)
   | _ + 1, _, d, .exitEv => (d, .err)
@@ -218,7 +226,7 @@ def ssLoop : Nat → Nat → D → WEv → D × SRes
 def ssFuel (d : D) : Nat := 4 * (d.k.pp.length + d.k.sp.length) + 8
 
 def singleStep (d : D) : D × SRes :=
-  let r := d.kres .step 0
+  let r := d.kp .step 0
   ssLoop (ssFuel d) d.k.pos r.1 r.2
 
 /-- `Tracer::resume` -/
@@ -230,9 +238,9 @@ def resume : Nat → D → D × RRes
       -- the only thread is in the `exclude` set: nothing is continued, the head is gone, the next one is reported
       ({ d with queue := s' :: rest }, .sig s')
     | q =>
-      let r := { d with queue := [] }.kres .cont (q.headD 0)
+      let r := { d with queue := [] }.kp .cont (q.headD 0)
       match r.2 with
-      | .sigStop s => if s ∈ quiet then resume f (r.1.push s) else (r.1.push s, .sig s)
+      | .sigStop s => if s ∈ quiet then resume f r.1 else (r.1, .sig s)
       | .trapBp => (r.1, .bp)
       | .exitEv => (r.1, .exit)
       | _ => (r.1, .unmodelled)
@@ -249,34 +257,38 @@ def report (d : D) (s : Sig) : D := { d with reported := d.reported ++ [s] }
 
 def running (d : D) : Bool := d.started && !(d.k.stop == .exited)
 
+/-- the loop of `Debugger::continue_execution` after the optional step over the breakpoint -/
+def afterStep (d : D) : D × Out :=
+  let r := d.resume (resFuel d)
+  match r.2 with
+  | .bp => (r.1, .bp)
+  | .exit => (r.1, .exit)
+  | .sig s => (r.1.report s, .sig s)
+  | .unmodelled => (r.1, .unmodelled)
+  | .outOfFuel => (r.1, .outOfFuel)
+
+/-- outcome of a `single_step` that did not complete -/
+def stepOut (d : D) : SRes → D × Out
+  | .sig s => (d.report s, .sig s)
+  | .none => (d, .done)
+  | .panic => ({ d with dead := true }, .panic)
+  | .err => (d, .err)
+  | .unmodelled => (d, .unmodelled)
+  | .outOfFuel => (d, .outOfFuel)
+
 /-- `Debugger::continue_execution` -/
 def contExec (d : D) : D × Out :=
-  let afterStep (d : D) : D × Out :=
-    match d.resume (resFuel d) with
-    | (d, .bp) => (d, .bp)
-    | (d, .exit) => (d, .exit)
-    | (d, .sig s) => (d.report s, .sig s)
-    | (d, .unmodelled) => (d, .unmodelled)
-    | (d, .outOfFuel) => (d, .outOfFuel)
   if d.atBp then
-    match d.singleStep with
-    | (d, .sig s) => (d.report s, .sig s)
-    | (d, .none) => afterStep d
-    | (d, .panic) => ({ d with dead := true }, .panic)
-    | (d, .err) => (d, .err)
-    | (d, .unmodelled) => (d, .unmodelled)
-    | (d, .outOfFuel) => (d, .outOfFuel)
-  else afterStep d
+    let r := d.singleStep
+    match r.2 with
+    | .none => r.1.afterStep
+    | o => stepOut r.1 o
+  else d.afterStep
 
 /-- `Debugger::stepi` (the hook tells signal stops from completed steps) -/
 def stepiExec (d : D) : D × Out :=
-  match d.singleStep with
-  | (d, .sig s) => (d.report s, .sig s)
-  | (d, .none) => (d, .done)
-  | (d, .panic) => ({ d with dead := true }, .panic)
-  | (d, .err) => (d, .err)
-  | (d, .unmodelled) => (d, .unmodelled)
-  | (d, .outOfFuel) => (d, .outOfFuel)
+  let r := d.singleStep
+  stepOut r.1 r.2
 
 def drainLoop : Nat → D → List Out → D × List Out
   | 0, d, acc => (d, acc)
